@@ -326,27 +326,18 @@ def mon_c09_msg(spec, run):
         seen_lines.add(text)
         for cb, ops in regs.items():
             ops = sorted(ops, key=lambda c: c["call"])
-            # certainly registered throughout the window / possibly registered at some point of it
-            certainly = False
-            possibly = False
-            state_c = False
-            for o in ops:
-                pass
-            # evaluate certainly: last op fully before the window is a reg, and no unreg/close call begins before window end
-            before = [o for o in ops if o["ret"] is not None and o["ret"] < rseq]
-            inside_or_overlap = [o for o in ops if not (o["ret"] is not None and o["ret"] < rseq) and o["call"] < wend]
-            if before and before[-1]["op"][0] == "reg" and not any(o["op"][0] == "unreg" for o in inside_or_overlap):
+            # Operations that overlap in time are unordered (their effect on the collection can take place anywhere between call and
+            # return).  certainly: some register() returned before the window and every unregister() that begins before the window
+            # ends lies entirely before that register().  possibly: some register() began before the window ends and no unregister()
+            # lies entirely between it and the window.
+            INF = 10 ** 12
+            regs_ = [o for o in ops if o["op"][0] == "reg"]
+            unregs_ = [o for o in ops if o["op"][0] == "unreg"]
+            ret = lambda o: o["ret"] if o["ret"] is not None else INF  # noqa: E731
+            certainly = any(ret(R) < rseq and all(ret(U) < R["call"] for U in unregs_ if U["call"] < wend) for R in regs_)
+            if certainly:
                 certainly = not (close_call is not None and close_call < wend) and not (dead_seq is not None and dead_seq < wend)
-            # possibly: some reg call started before window end, and it is not the case that an unreg returned before the window with no reg after it
-            st = False
-            for o in ops:
-                if o["call"] >= wend:
-                    break
-                if o["op"][0] == "reg":
-                    st = True
-                elif o["ret"] is not None and o["ret"] < rseq:
-                    st = False
-            possibly = st
+            possibly = any(R["call"] < wend and not any(U["call"] > ret(R) and ret(U) < rseq for U in unregs_) for R in regs_)
             n = len(deliveries.get((cb, su, fn, val), []))
             if n > 1:
                 bad.append(("twice", f"callback {cb} was invoked {n} times for the line {text!r}"))
@@ -422,7 +413,7 @@ def mon_c15(spec, run):
     bad = []
     tr = run.trace
     cs = calls(tr)
-    rf = [e for e in tr if e["k"] == "read_fault"]
+    rf = [e for e in tr if e["k"] == "read_fault"] or [e for e in tr if e["k"] == "fault_injected" and e.get("exc") == "port-reports-closed"]
     if not rf:
         return bad
     f = rf[0]["seq"]
